@@ -157,6 +157,27 @@ fn pair_case(idx: u64) -> Option<Fields> {
     Some(f)
 }
 
+/// Every ASCII pair at every offset (mod 8) inside a run of 17-24 bytes, in every position: an encoder
+/// that works a machine word at a time treats a byte differently depending on its neighbours and on
+/// where in the word it sits, which neither single characters nor short pairs show.
+fn pair_in_run_case(idx: u64) -> Option<Fields> {
+    let pos = idx % 5;
+    let k = (idx / 5) % 8;
+    let pair = idx / 40;
+    let (a, b) = ((pair / 128) as u8 as char, (pair % 128) as u8 as char);
+    let x: String = format!("{}{a}{b}{}", "p".repeat(k as usize), "p".repeat(15));
+    let plain = "p".to_string();
+    let mut f = Fields { ty: "t".into(), typed: false, ns: plain.clone(), name: plain.clone(), version: plain.clone(), quals: vec![("k".into(), plain.clone())], subpath: plain };
+    match pos {
+        0 => f.ns = x,
+        1 => f.name = x,
+        2 => f.version = x,
+        3 => f.quals[0].1 = x,
+        _ => f.subpath = x,
+    }
+    Some(f)
+}
+
 fn gfields() -> BoxedStrategy<Fields> {
     let ty = prop_oneof![
         2 => gtype().prop_map(|t| (t, false)),
@@ -234,6 +255,14 @@ pub fn sections() -> Vec<Box<dyn Section>> {
             name: "every-ascii-pair-in-every-position".into(),
             total: Box::new(|_| 128 * 128 * 5),
             make: Box::new(|_, i| pair_case(i)),
+            oracle: o_fields,
+            required: vec!["needs-escaping"],
+            complete: true,
+        }),
+        Box::new(Enumerated {
+            name: "every-ascii-pair-at-every-offset-inside-a-run".into(),
+            total: Box::new(|_| 128 * 128 * 8 * 5),
+            make: Box::new(|_, i| pair_in_run_case(i)),
             oracle: o_fields,
             required: vec!["needs-escaping"],
             complete: true,
